@@ -255,6 +255,10 @@ type Ledger struct {
 	FailErr error
 	ShortAt int // read op index to cut short (-1 none)
 	ShortTo int // bytes
+	// ShortErr: the cut read also returns an error (what pread does when a transfer fails half-way: some bytes AND
+	// the error); then positional reads (ReadAt) are cut as well - without the error only sequential reads are,
+	// a positional read may not come back short without saying why
+	ShortErr error
 	Reads   int // read operations seen
 	Fired   []string
 	// OpenAtFire: handles open at the moment a fault fired
@@ -285,12 +289,12 @@ func (l *Ledger) op(kind, name string) error {
 	return nil
 }
 
-func (l *Ledger) readOp(name string, want int) (cut int, fire bool) {
+func (l *Ledger) readOp(name string, want int, positional bool) (cut int, fire bool) {
 	l.mu.Lock()
 	defer l.mu.Unlock()
 	idx := l.Reads
 	l.Reads++
-	if idx == l.ShortAt && want > 1 {
+	if idx == l.ShortAt && want > 1 && (!positional || l.ShortErr != nil) {
 		c := l.ShortTo
 		if c <= 0 {
 			c = 1
@@ -441,14 +445,25 @@ func (f *ledgerFile) Read(p []byte) (int, error) {
 	if err := f.l.op("read", f.name); err != nil {
 		return 0, err
 	}
-	if cut, fire := f.l.readOp(f.name, len(p)); fire {
-		return f.File.Read(p[:cut])
+	if cut, fire := f.l.readOp(f.name, len(p), false); fire {
+		n, err := f.File.Read(p[:cut])
+		if err == nil && f.l.ShortErr != nil {
+			err = f.l.ShortErr
+		}
+		return n, err
 	}
 	return f.File.Read(p)
 }
 func (f *ledgerFile) ReadAt(p []byte, off int64) (int, error) {
 	if err := f.l.op("readat", f.name); err != nil {
 		return 0, err
+	}
+	if cut, fire := f.l.readOp(f.name, len(p), true); fire {
+		n, err := f.File.ReadAt(p[:cut], off)
+		if err == nil {
+			err = f.l.ShortErr
+		}
+		return n, err
 	}
 	return f.File.ReadAt(p, off)
 }
